@@ -37,12 +37,15 @@ FORMS = [
     ("only_hidden", "use a, only: t, hid", True, [("t", "t")]),
     ("rename_case", "use a, Lt => t, LS => S", False, [("lt", "t"), ("ls", "s")]),
     ("only_rename_case", "use a, only: Lt => T, V", True, [("lt", "t"), ("v", "v")]),
+    ("two_locals", "use a, only: p => t, q => t", True, [("p", "t"), ("q", "t")]),
+    ("name_and_rename", "use a, only: t, u => t, s", True, [("t", "t"), ("u", "t"), ("s", "s")]),
+    ("two_locals_no_only", "use a, p => t, q => t", False, [("p", "t"), ("q", "t")]),
     ("only_empty", "use a, only:", True, []),
     ("only_empty_blank", "use a, only :  ", True, []),
 ]
-# the one known finding of this family: two local names for one remote entity (used_names is keyed by the remote name)
+# two local names for one remote entity (once a known finding: used_names was keyed by the remote name; repaired)
 KNOWN_FORM = ("two_locals", "use a, only: p => t, q => t", True, [("p", "t"), ("q", "t")])
-UNIVERSE = ["t", "s", "v", "hid", "lt", "ls", "lv", "p", "q"]
+UNIVERSE = ["t", "s", "v", "hid", "lt", "ls", "lv", "p", "q", "u"]
 
 
 def imported(only, items):
